@@ -12,6 +12,7 @@ boundary-including rules and depth >= 1); weights sum to one."""
 import math
 import os
 
+import extie
 import gridlib as gl
 import vlib
 
@@ -23,6 +24,8 @@ TRUSTED = [
     "Python orchestration, C++ driver harness/tsgdrv.cpp (probe points: random, nodes, node +- support)",
     "modelled: multi-dimensional assembly in exact algebra; NOT modelled: one-dimensional Lagrange caches, node generation, the exactness tables getIExact, "
     "Fourier / Wavelet / Local Polynomial evaluation - the statement is evaluated on the implementation",
+    "translator translator/exactness.py (clang JSON AST of OneDimensionalMeta::getNumPoints/getIExact/getQExact -> coq/gen/ExactnessGen.v, compared entry by entry with the compiled library on every run): "
+    "monotone tables (hypothesis m_mono), the n-1 / 2n-1 bounds and the instantiation of the sparse theorems with the library table are proved for all levels (Props/Properties_Exactness.v)",
 ]
 
 TOL = 1e-9
@@ -85,6 +88,7 @@ def to_canonical(spec, x, j):
 def run(res, tier, seed, replay_script=None):
     props = vlib.coq_props(PID)
     vlib.proof_coverage(res, PID, props, "cd coq && make Props/Properties_C03.vo && coqc -Q . TV Props/Properties_C03.v", TRUSTED)
+    ex_break = extie.run(res, PID)      # the exactness tables re-translated from the source, compared with the library and re-proved monotone / bounded
     proof_broken = (not props["ok"]) or bool(res.coverage["forbidden_tokens"])
     drv = vlib.build_driver("tsgdrv")
     wd = os.path.join(vlib.BUILD, "work", PID)
@@ -275,6 +279,7 @@ def run(res, tier, seed, replay_script=None):
                         break
                 continue
             break
+    extie.report(res, ex_break)
     if proof_broken and not res.violations:
         res.violation("proof", "proof obligations of Properties_C03.v no longer check (%d/%d) %s" % (props["discharged"], props["obligations"], res.coverage["forbidden_tokens"][:2]),
                       {"kind": "proof-break", "theorems": props["theorems"], "log": props["log"][-3000:]}, no_input=True)
